@@ -669,7 +669,14 @@ func (c *client) loopRead() {
 			return
 		}
 
-		req := <-c.processingReqs
+		// The writer may have quit before it could hand over the request
+		// this reply belongs to, don't wait for it forever then.
+		var req *simpleRequest
+		select {
+		case req = <-c.processingReqs:
+		case <-c.quit:
+			return
+		}
 		c.handleResp(req, resp)
 	}
 }
